@@ -13,24 +13,22 @@ ASSUMPTIONS = ['lifecycle hooks do not raise (C03 owns that)', 'single-threaded 
                'private attributes are read for coverage accounting only']
 REQUIRED = ['transitions', 'acts_after_terminal', 'samples']
 ALPHABET = [['pause', 'p'], ['play'], ['kill', 'k'], ['resume', ['v']], ['fail', 'f'], ['soon_ok', 'c'], ['soon_raise', 'c']]
-BOUNDS = {'quick': 'basic program family (14), K<=2 exhaustive over slots', 'thorough': '+ 40 random programs, K=3 sampled'}
+BOUNDS = {'quick': 'basic program family (14) K<=2 exhaustive over slots + 8 random programs (K=2 quarter-sampled)', 'thorough': '+ 40 random programs, K=3 sampled'}
 
 
 def gen_cases(tier, seed):
     cases = []
     progs = dict(programs.basic_programs())
     rng = plans.rng_for(seed, 'c01')
-    if tier == 'thorough':
-        for n in range(40):
-            progs['rnd%d' % n] = programs.random_program(rng, 5)
+    for n in range(40 if tier == 'thorough' else 8):
+        progs['rnd%d' % n] = programs.random_program(rng, 5 if tier == 'thorough' else 4)
     for name, prog in sorted(progs.items()):
         n = plans.slots_of(prog)
         plist = [[]]
         plist += list(plans.all_placements(n, ALPHABET, 1))
         k2 = list(plans.all_placements(n, ALPHABET, 2))
-        if tier == 'quick':
-            # exhaustive K=2 is large; take every 3rd for quick (rotating with the seed), all for thorough
-            k2 = k2[seed % 3::3]
+        if tier == 'quick' and name.startswith('rnd'):
+            k2 = k2[seed % 4::4]  # random programs: a quarter of the pairs (rotating with the seed); the basic family is exhaustive
         plist += k2
         if tier == 'thorough':
             plist += list(plans.sampled_placements(rng, n, ALPHABET, 3, 300))
